@@ -130,6 +130,9 @@ func genCSV(t *tape.Tape, o GenOpts) *World {
 		if replaceDQ {
 			return strings.Join(dqVals(vals), delim)
 		}
+		if r.Bad {
+			return vals[0] + delim + `bare"quote` + delim + "x"
+		}
 		q := -1
 		if quoteEvery {
 			q = 0
@@ -137,6 +140,10 @@ func genCSV(t *tape.Tape, o GenOpts) *World {
 		return csvLine(vals, delim, q)
 	}
 	ragged := t.Chance("csv.ragged", 1, 3)
+	badRows := !replaceDQ && !o.NoBadRows && t.Chance("csv.badrows", 1, 3)
+	if badRows {
+		w.SetTag("csv.bad-rows", "1")
+	}
 	noFinalEOL := t.Chance("gen.noFinalEOL", 1, 4)
 	w.Sep = eol
 	if t.Chance("gen.blankLines", 1, 4) {
@@ -151,6 +158,9 @@ func genCSV(t *tape.Tape, o GenOpts) *World {
 	}
 	t.Repeat("recs", min, max, 4, 5, func(int) {
 		r := DrawRec(t, sh)
+		if badRows && t.Chance("csv.bad.row", 1, 5) && r.Vals[0] != sh.SkipValue {
+			r.Bad = true
+		}
 		if ragged && t.Chance("csv.ragged.row", 1, 3) {
 			r.Short = 1 + t.Intn("csv.ragged.n", 3)
 		}
